@@ -109,10 +109,10 @@ fn child_main(args: &[String]) -> ! {
         .spawn(move || {
             let out = std::io::stdout();
             let ctx = Context::new().with_settings(settings_json().as_str()).expect("settings");
+            let signer = signers::TestSigner::new(&alg);
             for r in list {
                 let line = match mode.as_str() {
                     "sign_claim" => {
-                        let signer = signers::TestSigner::new(&alg);
                         match report::catch_sdk(|| c2pa::cose_sign::sign_claim(&claim, &signer, r, ctx.settings())) {
                             Ok(Ok(v)) => {
                                 let (p, p2) = cose_pad_lens(&v);
@@ -375,6 +375,10 @@ fn main() {
     let args: Vec<String> = std::env::args().collect();
     if args.len() > 1 && args[1] == "--child" {
         child_main(&args[2..]);
+    }
+    if args.len() > 2 && args[1] == "--dump-claim" {
+        std::fs::write(&args[2], extract_claim().expect("claim")).expect("write");
+        return;
     }
     let mut run = Run::from_args("C14", "exploration");
     report::quiet_panics();
